@@ -59,7 +59,7 @@ def main():
         checks = {}
         for pid in [a.prop] + [x for x in a.also.split(",") if x]:
             t0 = time.time()
-            r = sh("cd %s && VERIF_REPO=%s ./check %s" % (VERIF, scratch, pid))
+            r = sh("cd %s && VERIF_EVIDENCE_DIR=%s_evidence VERIF_REPO=%s ./check %s" % (VERIF, scratch, scratch, pid))
             lines = [l for l in r.stdout.splitlines() if l.startswith(("VIOLATION", "KNOWN-FINDING"))]
             checks[pid] = dict(rc=r.returncode, wall_s=round(time.time() - t0, 1),
                                violations=[l[:300] for l in lines if l.startswith("VIOLATION")])
@@ -70,6 +70,7 @@ def main():
     finally:
         sh("git -C /repo worktree remove --force %s" % scratch)
         shutil.rmtree(scratch, ignore_errors=True)
+        shutil.rmtree(scratch + "_evidence", ignore_errors=True)
     d = os.path.join(VERIF, "seeded", a.seed_id)
     os.makedirs(d, exist_ok=True)
     shutil.copy(a.patch, os.path.join(d, "patch.diff"))
